@@ -129,7 +129,7 @@ TypeTable ==
         ELSE /\ r.r = "err"
              /\ r.kind \in {"InvalidOpTypes", "InvalidEqOpTypes"}
              \* the message names the operator and both type names, in order
-             /\ r.msg[2] = S(op) /\ r.msg[4] = S(TypeName(a)) /\ r.msg[6] = S(TypeName(b))
+             /\ r.msg[2] = PS(op) /\ r.msg[4] = PS(TypeName(a)) /\ r.msg[6] = PS(TypeName(b))
 
 ASSUME TypeNamesOk
 ASSUME TypeTable
